@@ -383,9 +383,17 @@ impl ProveState {
     }
 
     pub(crate) fn is_parent_of(&self, child_last_state: &LastState) -> bool {
-        self.get_last_header()
-            .header()
-            .is_parent_of(child_last_state.header())
+        let parent = self.get_last_header();
+        let child = child_last_state.as_ref();
+        if !parent.header().is_parent_of(child.header()) {
+            return false;
+        }
+        // The chain root committed by the child should end at the proved parent block
+        // and accumulate exactly the total difficulty of that block.
+        let child_chain_root = child.parent_chain_root();
+        let end_number: BlockNumber = child_chain_root.end_number().unpack();
+        let total_difficulty: U256 = child_chain_root.total_difficulty().unpack();
+        end_number == parent.header().number() && total_difficulty == parent.total_difficulty()
     }
 
     pub(crate) fn get_last_header(&self) -> &VerifiableHeader {
